@@ -117,7 +117,7 @@ async def sweep_method(loop, net, mname, variant):
                     nt = loop.next_timer()
                     if task.done() or nt is None:
                         break
-                    await simnet.advance(loop, to=nt + simnet.CLOCK_BASE)
+                    await simnet.advance(loop, to=nt + loop.base)
             if not task.done():
                 task.cancel()
                 await simnet.drain(loop)
